@@ -497,4 +497,69 @@ example : MacSizeAllowed 20 10 ∧ MacSizeAllowed 32 16 ∧ ¬ MacSizeAllowed 32
 example : TimeOk 1300 1000 300 ∧ TimeOk 700 1000 300 ∧ ¬ TimeOk 1301 1000 300 ∧ ¬ TimeOk 699 1000 300 ∧
     TimeOk 0 100 300 := by decide
 
+/-- **Tampering is detected** — the contrapositive of `C11_tamper_needs_collision`: if the MAC
+    function does not give the two (different) MAC inputs at hand the same first `mac_size` octets,
+    `verify_*` does not return `Ok` on a message / record / prior MAC that differs in a covered item
+    from what was signed.  (`hnc` speaks about these two inputs only; it is what HMAC's security
+    gives with overwhelming probability, and it is not assumed for *all* pairs — no function with
+    fixed-size tags could satisfy that.) -/
+theorem C11_tamper_detected (mode : Mode) (p : PreparedTsigRr) (m pm : Octets) (alg : Algorithm)
+    (key rdata mac : Octets) (r' : ReadTsigRr) (m' pm' : Octets) (now : TimeSigned)
+    (hsign : signMode (ε := VerificationError) hm mode p m pm alg key = .ok (rdata, mac))
+    (hv : r'.mac.length = r'.macSize)
+    (hreuse : r'.mac = mac.take r'.macSize)
+    (hf : Framed m m')
+    (hpm : mode ≠ .request → pm'.length ≤ 65535)
+    (hn : mode ≠ .subsequent → WireName p.keyName ∧ WireName r'.keyName ∧ WireName r'.algorithm)
+    (hdiff : p.originalId ≠ r'.originalId ∨ m.drop 2 ≠ m'.drop 2 ∨ (mode ≠ .request ∧ pm ≠ pm') ∨
+      (mode ≠ .subsequent ∧ p.vars alg.name ≠ r'.vars) ∨
+      p.timeSigned ≠ r'.timeSigned ∨ p.fudge ≠ r'.fudge)
+    (hnc : ∀ D D', D ≠ D' →
+      inputMode (ε := VerificationError) mode m pm p.originalId (p.vars alg.name) = .ok D →
+      inputMode (ε := VerificationError) mode m' pm' r'.originalId r'.vars = .ok D' →
+      (hm alg key D).take r'.macSize ≠ (hm alg key D').take r'.macSize) :
+    verifyMode hm mode r' m' pm' alg key now ≠ .ok () := by
+  intro hver
+  obtain ⟨D, D', hne, _, hD, hD', hc⟩ :=
+    C11_tamper_needs_collision hm mode p m pm alg key rdata mac r' m' pm' now hsign hv hreuse hver hf hpm hn hdiff
+  exact hnc D D' hne hD hD' hc
+
+/-! ### a complete concrete instance (non-vacuity of §3 and §4) -/
+
+/-- toy MAC function: constant tags of the right size — every two inputs collide -/
+def constMac : Algorithm → Octets → Octets → Octets := fun a _ _ => List.replicate a.outputSize 0
+
+def exMsg : Octets := [0, 1, 0, 0, 0, 0, 0, 0, 0, 0, 0, 1]
+def exP : PreparedTsigRr := ⟨[3, 107, 101, 121, 0], ⟨0, 0, 0x5f, 0x5e, 0x10, 0⟩, 300, 1, 0, ⟨0, 0, 0, 0, 0, 0⟩⟩
+def exRdata : Octets :=
+  [9, 104, 109, 97, 99, 45, 115, 104, 97, 49, 0, 0, 0, 95, 94, 16, 0, 1, 44, 0, 20, 0, 0, 0, 0, 0, 0, 0, 0, 0, 0, 0, 0,
+   0, 0, 0, 0, 0, 0, 0, 0, 0, 1, 0, 0, 0, 0]
+def exMac : Octets := List.replicate 20 0
+
+theorem C11_example_sign : signMode (ε := VerificationError) constMac .request exP exMsg [] .HmacSha1 [1] = .ok (exRdata, exMac) := by
+  decide +kernel
+
+/-- the hypotheses of `C11_verify_sign` hold for the toy instance (owner in upper case, message with
+    another ID, `now` at the far end of the window) … -/
+example : ∃ r, ReadTsigRr.tryFrom [3, 75, 69, 89, 0] Gen.TYPE_TSIG Gen.QCLASS_ANY 0 exRdata = .ok r ∧
+    verifyMode constMac .request r [0xab, 0xcd, 0, 0, 0, 0, 0, 0, 0, 0, 0, 1] [] .HmacSha1 [1]
+      ⟨0, 0, 0x5f, 0x5e, 0x11, 0x2c⟩ = .ok () :=
+  C11_verify_sign constMac .request exP exMsg _ [] .HmacSha1 [1] _ [3, 75, 69, 89, 0] exRdata exMac
+    (fun _ => by simp [constMac]) (by decide) (by decide) C11_example_sign (by decide)
+
+/-- … and those of `C11_tamper_needs_collision`: with the colliding toy MAC a message with changed
+    flags *is* accepted, and the theorem exhibits the collision. -/
+example : ∃ D D', D ≠ D' ∧ (constMac .HmacSha1 [1] D).take 20 = (constMac .HmacSha1 [1] D').take 20 := by
+  have h := C11_tamper_needs_collision constMac .request exP exMsg [] .HmacSha1 [1] exRdata exMac
+    (readOf exP.keyName (Algorithm.name .HmacSha1) exP.timeSigned exP.fudge exMac exP.originalId exP.error exP.other)
+    [0, 1, 0x80, 0, 0, 0, 0, 0, 0, 0, 0, 1] [] ⟨0, 0, 0x5f, 0x5e, 0x10, 0⟩ C11_example_sign
+    (by decide +kernel) (by decide +kernel) (by decide +kernel) (Or.inl rfl) (fun h => absurd rfl h)
+    (fun _ => ⟨WireName.label 3 [107, 101, 121] [0] (by decide) rfl WireName.root,
+               WireName.label 3 [107, 101, 121] [0] (by decide) rfl WireName.root,
+               WireName.label 9 [104, 109, 97, 99, 45, 115, 104, 97, 49] [0] (by decide) rfl WireName.root⟩)
+    (Or.inr (Or.inl (by decide)))
+  obtain ⟨D, D', hne, _, _, _, hc⟩ := h
+  exact ⟨D, D', hne, hc⟩
+
+
 end QV.C11
